@@ -42,6 +42,7 @@ type OptSet struct {
 	Memo         bool
 	Debug        bool
 	Stats        bool
+	StatsReused  bool // Statistics with a Stats value shared by all such calls of the process
 	Init         int  // InitState values (grammars with a state store only)
 	Reader       bool // through ParseReader; the result must also survive a later ParseReader call
 }
@@ -163,11 +164,11 @@ func (c *Ctx) mcChunk(cfg *MCConfig, gs []*gast.Grammar, base int, rng *rand.Ran
 					}
 					id := fmt.Sprintf("%s/%d/%d/%d", u.Pkg, ii, oi, ei)
 					mc := &mon.Case{ID: id, Pkg: u.Pkg, Input: in, File: os.File, Entry: en, AllowInvalid: os.AllowInvalid,
-						NoRecover: os.NoRecover, MaxExpr: os.MaxExpr, MaxEvents: 4000, Memo: os.Memo, Debug: os.Debug, Stats: os.Stats, Init: os.Init, Reader: os.Reader}
+						NoRecover: os.NoRecover, MaxExpr: os.MaxExpr, MaxEvents: 4000, Memo: os.Memo, Debug: os.Debug, Stats: os.Stats, StatsReused: os.StatsReused, Init: os.Init, Reader: os.Reader}
 					if os.Debug && cfg.DebugOptEvery > 1 && ii%cfg.DebugOptEvery != 0 {
 						continue // Debug(true) runs are I/O heavy: option sets with Debug take every n-th input
 					}
-					if (os.Memo || os.Debug || os.Stats) && u.HasFlag("-optimize-parser") {
+					if (os.Memo || os.Debug || os.Stats || os.StatsReused) && u.HasFlag("-optimize-parser") {
 						continue // these options do not exist in optimized parsers
 					}
 					if cfg.DebugEvery > 0 && ii%cfg.DebugEvery == 0 && !u.HasFlag("-optimize-parser") && oi == 0 {
